@@ -671,6 +671,54 @@ class CallMixin:
             return k(self.new_cell(st, LVal(lv.ety, lv.arr, lv.n)), st)
         raise Unsupported("list(%r)" % (v,))
 
+    def bi_WeakSet(self, args, kwargs, st, k):
+        if args or kwargs:
+            raise Unsupported("WeakSet(iterable)")
+        self.assumptions_used.add("weakref.WeakSet is treated as a set of live objects: an object that is dropped from it is "
+                                  "unreachable, so nobody waits on it or observes it any more")
+        return k(EmptySet(), st)
+
+    def set_mem(self, st, ws):
+        arr = st.harr(ws.key + "#mem", self.set_sort())
+        return z3.Select(arr, ws.obj)
+
+    def set_method(self, recv, m, args, kwargs, st, k):
+        if m == "add" and len(args) == 1:
+            x = coerce(args[0], recv.ety or ANY).t
+            arr = st.harr(recv.key + "#mem", self.set_sort())
+            st.hset(recv.key + "#mem", z3.Store(arr, recv.obj, z3.Store(z3.Select(arr, recv.obj), x, z3.BoolVal(True))))
+            return k(NONE, st)
+        if m == "discard" and len(args) == 1:
+            x = coerce(args[0], recv.ety or ANY).t
+            arr = st.harr(recv.key + "#mem", self.set_sort())
+            st.hset(recv.key + "#mem", z3.Store(arr, recv.obj, z3.Store(z3.Select(arr, recv.obj), x, z3.BoolVal(False))))
+            return k(NONE, st)
+        raise Unsupported("set method " + m)
+
+    def weakset_list(self, ws, st, k):
+        """list(s): the members, each once, in an unspecified order"""
+        ety = ws.ety or ANY
+        mem = self.set_mem(st, ws)
+        arr = fresh("setl_a", z3.ArraySort(z3.IntSort(), RefS))
+        n = fresh("setl_n", z3.IntSort())
+        i = z3.Const("i!sl", z3.IntSort())
+        j = z3.Const("j!sl", z3.IntSort())
+        x = z3.Const("x!sl", RefS)
+        idx = z3.Function("setl_idx!%d" % arr.get_id(), RefS, z3.IntSort())
+        st.assume(n >= 0)
+        st.assume(z3.ForAll([i], z3.Implies(z3.And(0 <= i, i < n), z3.And(z3.Select(mem, z3.Select(arr, i)), idx(z3.Select(arr, i)) == i)),
+                            patterns=[z3.Select(arr, i)]))
+        st.assume(z3.ForAll([x], z3.Implies(z3.Select(mem, x), z3.And(0 <= idx(x), idx(x) < n, z3.Select(arr, idx(x)) == x)),
+                            patterns=[z3.Select(mem, x)]))
+        if ety[0] == "ref" and ety[1] is not None:
+            # members are existing objects of the declared class (typing discipline of the field)
+            e = z3.Select(arr, i)
+            st.assume(z3.ForAll([i], z3.Implies(z3.And(0 <= i, i < n),
+                                                z3.And(e != NULL, subclass(cls_of(e), cls_const(ety[1])), birth(e) <= st.clock)),
+                                patterns=[e]))
+        lv = LVal(ety, arr, n)
+        return k(lv if st.frame.spec else self.new_cell(st, lv), st)
+
     def bi_deque(self, args, kwargs, st, k):
         if kwargs:
             if set(kwargs) != {"maxlen"} or args:
@@ -847,6 +895,8 @@ class CallMixin:
     def list_method(self, recv, m, args, kwargs, st, k):
         if isinstance(recv, DictFld):
             return self.dict_method(recv, m, args, kwargs, st, k)
+        if isinstance(recv, WeakSetVal):
+            return self.set_method(recv, m, args, kwargs, st, k)
         if isinstance(recv, OptList):
             recv = recv.lst
         if isinstance(recv, EmptyList):
@@ -1066,8 +1116,15 @@ class TakeWhile:
 
 
 class WeakSetVal:
-    __slots__ = ("obj", "key")
+    """set of object references stored in a field (weakref.WeakSet / set): membership predicate `key#mem`"""
+    __slots__ = ("obj", "key", "ety")
 
-    def __init__(self, obj, key):
+    def __init__(self, obj, key, ety=None):
         self.obj = obj
         self.key = key
+        self.ety = ety
+
+
+class EmptySet:
+    """WeakSet() / set() literal"""
+    pass
